@@ -278,11 +278,39 @@ def confirmed_never_removed(ctx, rule='A6c'):
                f'that no deriving node is confirmed)', detail)
 
 
+def infeasibility_monotone(ctx, rule='A5r'):
+    """Once a confirmed incompatibility made a graph infeasible, every graph derived from it by further selections
+    is infeasible too.  The marking edges are ordinary incompatibility edges (directed by node name), and the removal
+    pass of the next selection may remove the unconfirmed end together with them; `get_mod_apply_selection_choice`
+    therefore hands the confirmed incompatibility edges of the graph it was given back as edges to (re-)add."""
+    fn = ctx.fn(f'{CHOICES}:get_mod_apply_selection_choice')
+    cfg = build_cfg(fn)
+    rets = [r for r in guards.return_nodes(cfg) if isinstance(r.ast.value, ast.Tuple) and len(r.ast.value.elts) == 3 and
+            isinstance(r.ast.value.elts[2], ast.Name)]
+    if not rets:
+        raise AnalysisError('get_mod_apply_selection_choice: return of the modification not found')
+    full = rets[-1]
+    added = full.ast.value.elts[2].id
+    graph_p, start_p = fn.params[0], fn.params[1]
+
+    def keeps(sub):
+        if not (isinstance(sub, ast.Call) and call_name(sub) == 'get_confirmed_incompatibility_edges' and
+                len(sub.args) >= 2 and norm(sub.args[0]) == graph_p and norm(sub.args[1]) == start_p):
+            return False
+        return True
+    through = [n for n in guards.nodes_with(cfg, keeps) if n.kind == 'stmt' and
+               isinstance(n.ast, (ast.AugAssign, ast.Assign, ast.Expr)) and added in norm(n.ast)]
+    guards.check_passes(ctx, rule, fn, [full], through, 'infeasibility-marking-kept',
+                        'the modification returned for an applied selection re-adds the confirmed incompatibility edges '
+                        'of the incoming graph (an infeasible graph never becomes feasible by taking further choices)')
+
+
 def check(ctx):
     feasible_shape(ctx)
     handlers(ctx)
     removal_shape(ctx)
     confirmed_never_removed(ctx)
+    infeasibility_monotone(ctx)
     guards.check_accumulators_threaded(ctx, [f for f in ctx.prog.all_functions() if f.module.name.startswith('adsg_core.graph.')])
     # graph algorithms memoise in caller-provided cache dicts: keys must cover what the value depends on
     persist.check_memo_functions(ctx, [f for f in ctx.prog.all_functions() if f.module.name.startswith('adsg_core.graph.')])
@@ -292,11 +320,18 @@ def check(ctx):
                                f'{INCOMP}:get_incompatibility_deriving_nodes'])
     ctx.floor('A9e', 4, 'handlers of IncompatibilityError')
     ctx.floor('A4', 15, 'walks')
+    # design-vector position vs selection-choice position (forced choices have no variable): the decode keeps the
+    # two index spaces apart
+    from ..rules import indexspace as _ix21
+    _ix21.check_index_spaces(ctx, [f'{GP}.get_graph', f'{GP}._update_comb_fixed_mask'])
+    _ix21.check_translation(ctx)
 
 
 from ..selftest import V  # noqa: E402
 
 VARIANTS = [
+    V('infeasibility-marking-dropped-by-later-choice', 'graph/choices.py',
+      [("    added_edges |= get_confirmed_incompatibility_edges(graph, start_nodes)\n", "")], key='infeasibility-marking-kept'),
     V('confirmed-upstream-node-handed-out', 'graph/incompatibility.py',
       [("            removed_nodes -= confirmed_nodes\n", "            removed_nodes -= start_nodes\n")], key='A6c'),
     V('twin-confirmed-subtracted-by-method', 'graph/incompatibility.py',
